@@ -58,6 +58,21 @@ func c06Ints(o slip.Object) ([]int, bool) {
 
 func c06Form(op c06Op) string {
 	switch op.Op {
+	case "mvlist":
+		return fmt.Sprintf("(setq %s (multiple-value-list (values-list %s)))", op.Dst, op.Src)
+	case "addf":
+		return fmt.Sprintf("(addf %s %d)", op.Src, op.A)
+	case "liststar":
+		return fmt.Sprintf("(setq %s (list* %d %s))", op.Dst, op.A, op.Src)
+	case "liststar0":
+		return fmt.Sprintf("(setq %s (list* %s))", op.Dst, op.Src)
+	case "subst":
+		return fmt.Sprintf("(setq %s (subst 9 %d %s))", op.Dst, op.A, op.Src)
+	case "copy-tree":
+		return fmt.Sprintf("(setq %s (copy-tree %s))", op.Dst, op.Src)
+	case "maprest":
+		// the function keeps the list of its arguments: what it returned for one pair is not changed by the next call
+		return fmt.Sprintf("(setq %s (apply #'append (mapcar (lambda (&rest r) r) %s %s)))", op.Dst, op.Src, op.Src2)
 	case "append0":
 		return fmt.Sprintf("(setq %s (append '() %s (list %d)))", op.Dst, op.Src, op.A)
 	case "append3":
